@@ -137,6 +137,16 @@ CHECKS["C17"] = dict(
     note="Distributional quality is not examined; reference points used only when they demonstrably are the ones drawn.",
     design="4 (C17)")
 
+CHECKS["C16"] = dict(
+    text="Repro.tla: schedule machine over reseeding/drawing from the global NumPy generator, other optimizations, re-use of plug-in "
+         "managers and target runs; TLC checks that a target run is a function of (configuration, seed) and that the seed matters, for "
+         "every schedule of length 3 (thorough 4), and finds the counterexamples for the as-is switches (run reads the global generator / "
+         "left-over state); every schedule is executed in a process with a catalogue of configurations (all sampler methods and options, "
+         "several samplers, filters, estimators, masks, deterministic and population optimizers with explicit seed), the full run is "
+         "hashed and Trace_C16 checks equality/inequality of the interned hashes.",
+    note="Bit-identity via SHA-256 of raw bytes; unscrambled Sobol'/Halton sequences are exempt from the seed-matters clause.",
+    design="4 (C16)")
+
 NOT_APPLICABLE = {}
 
 def main():
